@@ -938,7 +938,10 @@ def _func_out_type(func):
                 ''.format(func.__name__, func.nout)
             )
         has_out = out_optional = (func.nout == 1)
-    elif inspect.isfunction(func):
+    elif (inspect.isfunction(func) or inspect.ismethod(func)
+          or inspect.isbuiltin(func) or isinstance(func, partial)):
+        # Inspect the object itself; `func.__call__` of a bound method, a
+        # builtin or a `functools.partial` is a slot wrapper taking `*args`
         has_out, out_optional = _check_func_out_arg(func)
     elif callable(func):
         has_out, out_optional = _check_func_out_arg(func.__call__)
